@@ -86,12 +86,16 @@ def families(tier):
     combos = c01.shapes("x64-elf")
     for combo in (combos if tier == "thorough" else combos[5::24]):
         fam.append(("c01", c01.make_spec("x64-elf", list(combo), "one"), "c01"))
-    for term, follow in ([(t, f) for t in c03.TERMS for f in c03.FOLLOW if not (t == "jccnext" and f not in ("same", "other"))] if tier == "thorough" else [("none", "same"), ("call", "data"), ("ret", "same")]):
+    for term, follow in ([(t, f) for t in c03.TERMS for f in c03.FOLLOW if not (t == "jccnext" and f not in ("same", "other"))] if tier == "thorough" else [("none", "same"), ("call", "data"), ("ret", "same"), ("icall2", "other")]):
         fam.append(("c03", c03.make_spec(term, follow, 1, True), "c03"))
+    # functions without known callers all return to ONE proxy block; patches elsewhere call them
+    sp = c03.make_spec("call", "other", 0, True)
+    sp["share_return_proxy"] = True
+    fam.append(("c03-shared-proxy", sp, "c03"))
     for name in (c06.LAYOUTS if tier == "thorough" else ("data-between",)):
         fam.append(("c06", c06.make_spec(name), "c06"))
     for name, spec in c08.MODULES.items():
-        if tier == "thorough" or name in ("two-procs", "personality"):
+        if tier == "thorough" or name in ("two-procs", "personality", "split-by-data"):
             fam.append(("c08", spec, "c08"))
     fam.append(("all-tables", all_tables_spec(), "all"))
     fam.append(("all-tables-pe", all_tables_spec("x64-pe"), "all"))
@@ -103,7 +107,10 @@ def atoms_for(spec, kind):
 
     if kind == "c03":
         xa = [a for a in c03.x_atoms(spec) if a.get("pn") in (None, "ord", "callG", "ret", "jmp")]
-        return [{k: v for k, v in a.items() if k != "pn"} for a in xa + c03.other_atoms(spec, True)]
+        oa = c03.other_atoms(spec, True)
+        if spec.get("share_return_proxy"):
+            oa = oa + [a for a in c03.other_atoms(spec, False) if a.get("pn") == "callX"]
+        return [{k: v for k, v in a.items() if k != "pn"} for a in xa + oa]
     if kind == "c08":
         return c08.atoms_for(spec)
     if kind == "c06":
